@@ -810,7 +810,7 @@ func genC04(r *R, n int, tier string, out *Out) {
 			v = r.listTree(o)
 		}
 		s := stringOf(v.toAny())
-		switch r.Intn(5) {
+		switch r.Intn(6) {
 		case 0: // every kind of cut: proper prefixes of a serialised document (several cut points per document)
 			for k := 0; k < 6 && i < n; k++ {
 				if len(s) < 2 {
@@ -882,6 +882,48 @@ func genC04(r *R, n int, tier string, out *Out) {
 			}
 			out.emit(textCase("C04", isObj, string(bs), &failer{pred: true}, []string{"mutated"}, nil))
 			i++
+		case 4: // valid documents rich in escapes, damaged around an escape: hex digits dropped, the pair cut, the quote eaten
+			var doc string
+			if isObj {
+				doc = r.jsonObject(3)
+			} else {
+				doc = r.jsonArray(3)
+			}
+			for k := 0; k < 5 && i < n; k++ {
+				bs := []byte(doc)
+				var esc []int
+				for j := 0; j+1 < len(bs); j++ {
+					if bs[j] == '\\' {
+						esc = append(esc, j)
+						j++
+					}
+				}
+				if len(esc) == 0 {
+					break
+				}
+				at0 := pickOf(r, esc)
+				lo := at0 + r.Intn(7)
+				hi := lo + 1 + r.Intn(4)
+				if r.chance(0.4) { // eat up to and including the closing quote region: a body ending in a cut escape
+					q := strings.IndexByte(doc[at0:], '"')
+					if q > 0 {
+						hi = at0 + q
+						lo = hi - 1 - r.Intn(4)
+					}
+				}
+				if lo < 0 {
+					lo = 0
+				}
+				if hi > len(bs) {
+					hi = len(bs)
+				}
+				if lo >= hi {
+					continue
+				}
+				dam := string(bs[:lo]) + string(bs[hi:])
+				out.emit(textCase("C04", isObj, dam, &failer{pred: true}, []string{"escape-damaged"}, nil))
+				i++
+			}
 		default: // ParseFile: same as ParseObject on the bytes; unreadable paths give an error
 			f := &failer{pred: true}
 			content := s
@@ -939,7 +981,7 @@ func genC20(r *R, n int, tier string, out *Out) {
 		var toks []string
 		var build func(depth int, obj bool)
 		scalar := func() string {
-			return pickOf(r, []string{"1", "true", "null", `"s"`, "2.5", `"a\nb"`, "-7", `"x y"`})
+			return pickOf(r, []string{"1", "true", "null", `"s"`, "2.5", `"a\nb"`, "-7", `"x y"`, "\"ab\ncd\"", "\"l1\nl2\nl3\"", "\"\nx\"", "\"tab\there\""})
 		}
 		build = func(depth int, obj bool) {
 			if obj {
@@ -1042,6 +1084,20 @@ func genC20(r *R, n int, tier string, out *Out) {
 		}
 		if !po.ok && (po.class == "char" || po.class == "value") && !lineConsistent(s, po) {
 			f.fail("the error cites line %d which does not contain the cited character/delimiter at a position consistent with the text", po.line)
+		}
+		if isObj && i%3 == 0 {
+			// the same text through ParseFile must give the same outcome (same cited line) as ParseObject on the file's bytes
+			tmpf, err := os.CreateTemp("", "anytype-c20-*.json")
+			if err == nil {
+				tmpf.WriteString(s)
+				tmpf.Close()
+				pf := parseFileOut(tmpf.Name())
+				os.Remove(tmpf.Name())
+				if !pf.same(po) {
+					f.fail("ParseFile reports %q, ParseObject on the same bytes reports %q", pf.errText, po.errText)
+				}
+				tags = append(tags, "via-ParseFile")
+			}
 		}
 		out.emit(textCase("C20", isObj, s, f, tags, map[string]any{"expected_line": expectLine}))
 	}
